@@ -128,6 +128,9 @@ def check(ck: Checker) -> None:
 
     _verify_reported(ck, "C11.onerror")
     check_rest_attempted(ck, m, "C11.nodrop")
+    from .C12 import check_index_read_after_validation
+
+    check_index_read_after_validation(ck, "C11.new")
     check_oneshot(ck, "C11.nodrop", [f for f in move.module.funcs.values()])
 
     # -------------------------------------------------------------- onerror
